@@ -44,7 +44,7 @@ RULE = ("corpus = valid encodings made by the library itself (SM2 and RSA certif
         "ciphertexts (raw both orderings, ASN.1), compressed points, signatures, SM4 key PEM, all handshake message types, session state, "
         "tickets, GM key-exchange bodies); from each: every truncation, every byte replaced by {00,01,7f,80,ff,b^1,b^80}, every TLV length "
         "rewritten to {0,len-1,len+1,0x80,0x84ffffffff}, every TLV tag swapped among 11 universal tags (quick tier: TLV rewrites all, the "
-        "rest sampled at a fixed stride per base; thorough: all), empty input, random strings; BER nesting 1..200 through the model and "
+        "rest sampled at a fixed stride per base; thorough: all), empty input, random strings; handshake messages additionally get structure-aware mutants (harness/cmd/c18/tlstree.go: the message is parsed into its tree of length-prefixed vectors; the content of each vector becomes empty / 1 / 2 bytes / one shorter / one longer, list elements and extensions move first / last / alone, are duplicated or dropped, extensions of every known and of unknown types are inserted with tiny bodies, every enclosing length recomputed); BER nesting 1..200 through the model and "
         "1000/10000 (definite and indefinite), 20000 siblings, the repaired overlap family through the implementation. A case is "
         "non-trivial when its input is non-empty; distinct = distinct case text")
 
